@@ -894,7 +894,9 @@ def valueValidated (ps : List Pos) : List JV :=
   ps.flatMap (fun p =>
     match p.ty with
     | .ptr (.struct "SchemaRef") =>
-      if (p.j.getNN? "default").isSome || (p.j.getNN? "example").isSome then [p.j] else []
+      -- the siblings of a `$ref` are not decoded into the schema (SchemaRef.UnmarshalJSON keeps the reference only):
+      -- a `default` / `example` next to `$ref` is no validated value
+      if p.j.refText?.isNone && ((p.j.getNN? "default").isSome || (p.j.getNN? "example").isSome) then [p.j] else []
     | .ptr (.struct n) =>
       if (n == "MediaType" || n == "Parameter" || n == "Header") && ((p.j.getNN? "example").isSome || (p.j.getNN? "examples").isSome) then
         (match p.j.getNN? "schema" with | some s => [s] | none => [])
@@ -1297,9 +1299,59 @@ def unresolvedHit (b : Built) (hit : Option IHit) : Bool :=
 def unwalkedHit (b : Built) (hit : Option IHit) : Bool :=
   match hit with | some h => !b.walkedIds.contains h.id | none => false
 
+/-! ### typed decoding, the part that is certain (round 5)
+
+`unmarshal` decodes the parsed bytes into the Go structs before any reference is resolved. Which JSON kinds a
+member accepts depends on custom unmarshallers and on the YAML fallback (a number becomes a string there), so
+the model claims a decoding error only where no spelling can succeed: a JSON object or array at a field whose
+declared type is a predeclared basic type or a pointer to one (`Gen.c20PlainScalars`, regenerated), and a
+JSON array / string / number / boolean at a field that is one of the library's object structs (first field
+`Extensions`: `Gen.c20ExtensionsFirst`), a reference wrapper, or a Go map. `null` decodes everywhere; a wrapper
+written as a reference is not decoded further (`positions` stops there). Everything else stays
+over-approximated (the model loads, the real decoding may fail). -/
+
+def JV.isComposite : JV → Bool | .obj _ => true | .arr _ => true | _ => false
+
+def objectStruct (n : String) : Bool :=
+  Gen.c20ExtensionsFirst.contains n || (wrapperValueTy? n).isSome || (maplikeTy? n).isSome
+
+/-- a number in plain spelling (digits, sign, point, at most 15 characters). The YAML fallback of `unmarshal` re-reads
+    the bytes: a JSON number such as 1e999 is a string there and decodes into a string field, so only plain numbers
+    are claimed to clash with a string field -/
+def plainNum (s : String) : Bool :=
+  s.length ≤ 15 && s.toList.all (fun c => c.isDigit || c == '.' || c == '-')
+
+/-- a scalar of another JSON kind than the field's basic type accepts (`encoding/json` converts nothing, and the YAML
+    fallback of `unmarshal` has no target type below `T`, which has its own UnmarshalJSON): a number or boolean at a
+    string, a string or number at a bool, a string or boolean at a number. Whether a number FITS its integer /
+    float type is not claimed. -/
+def scalarKindClash (ctx : String) (j : JV) : Bool :=
+  match (Gen.c20ScalarKinds.find? (·.1 == ctx)).map (·.2), j with
+  | some "string", .num s => plainNum s
+  | some "string", .bool _ => true
+  | some "bool", .str _ => true
+  | some "bool", .num _ => true
+  | some "num", .str _ => true
+  | some "num", .bool _ => true
+  | _, _ => false
+
+def decodeMisfitAt (p : Pos) : Bool :=
+  if p.j.isNull then false else
+  match p.ty with
+  | .scalar => !p.inColl && Gen.c20PlainScalars.contains p.ctx && (p.j.isComposite || scalarKindClash p.ctx p.j)
+  | .ptr .scalar => !p.inColl && Gen.c20PlainScalars.contains p.ctx && (p.j.isComposite || scalarKindClash p.ctx p.j)
+  | .struct n => objectStruct n && !p.j.isObj
+  | .ptr (.struct n) => objectStruct n && !p.j.isObj
+  | .mapOf _ => !p.j.isObj
+  | _ => false
+
+/-- the document cannot be decoded into `T`: some typed position holds a JSON kind its Go type never accepts -/
+def decodeMisfit (ps : List Pos) : Bool := ps.any decodeMisfitAt
+
 def outcome (cfg : Cfg) (ds : Docs) : Outcome :=
   let b := build cfg ds
-  let load := b.load
+  -- the typed decoding comes first: where it certainly fails, the load ends with an error before any reference is resolved
+  let load := if decodeMisfit (docPositions ds.root) then Res.err else b.load
   let loadPanics := match load with | .panic _ => true | _ => false
   let hit : Option IHit := match load with | .ok st => internalizeHit b st | _ => none
   let ps := docPositions ds.root
